@@ -45,6 +45,9 @@ type cOp struct {
 	Stable nt.Stable_how
 	// MayFail: the disk is (nearly) full, so a request that needs a block may fail without effect
 	MayFail bool
+	// H: for the kinds writeh/readh/setattrh/getattrh the handle the client got from its last successful
+	// CREATE or LOOKUP of a file name (bound when the operation is issued); the file may be gone by then
+	H string
 }
 
 func (o cOp) String() string {
@@ -66,6 +69,14 @@ func (o cOp) String() string {
 		return fmt.Sprintf("READDIRPLUS %s", d[o.Dir])
 	case "sweep":
 		return "GETATTR of every extra file"
+	case "writeh":
+		return fmt.Sprintf("WRITE fh=%x off=%d len=%d tag=%x stable=%d", trimBytes([]byte(o.H), 16), o.Off, len(o.Data), tagOf([]byte(o.Data)), o.Stable)
+	case "readh":
+		return fmt.Sprintf("READ fh=%x off=%d cnt=%d", trimBytes([]byte(o.H), 16), o.Off, o.Cnt)
+	case "setattrh":
+		return fmt.Sprintf("SETATTR fh=%x size=%d", trimBytes([]byte(o.H), 16), o.Size)
+	case "getattrh":
+		return fmt.Sprintf("GETATTR fh=%x", trimBytes([]byte(o.H), 16))
 	}
 	return fmt.Sprintf("%s %s/%s", strings.ToUpper(o.Kind), d[o.Dir], o.Name)
 }
@@ -90,6 +101,13 @@ type cState struct {
 	Ids   map[string]uint64    // handle -> file id
 	Size  [2]uint64
 	Data  [2]string // first cPrefix bytes (zero padded to min(size, cPrefix))
+	// HFiles: the regular files the programs created, by handle (size and first cPrefix bytes)
+	HFiles map[string]cFile
+}
+
+type cFile struct {
+	Size uint64
+	Data string
 }
 
 func (s cState) clone() cState {
@@ -102,6 +120,12 @@ func (s cState) clone() cState {
 	}
 	for k, v := range s.Ids {
 		c.Ids[k] = v
+	}
+	if s.HFiles != nil {
+		c.HFiles = make(map[string]cFile, len(s.HFiles))
+		for k, v := range s.HFiles {
+			c.HFiles[k] = v
+		}
 	}
 	return c
 }
@@ -119,6 +143,16 @@ func (s cState) key() string {
 		}
 	}
 	fmt.Fprintf(&b, "|%d:%x|%d:%x", s.Size[0], Hash(s.Data[0]), s.Size[1], Hash(s.Data[1]))
+	if len(s.HFiles) > 0 {
+		hs := make([]string, 0, len(s.HFiles))
+		for h := range s.HFiles {
+			hs = append(hs, h)
+		}
+		sort.Strings(hs)
+		for _, h := range hs {
+			fmt.Fprintf(&b, "|%x=%d:%x", h, s.HFiles[h].Size, Hash(s.HFiles[h].Data))
+		}
+	}
 	return b.String()
 }
 
@@ -174,6 +208,12 @@ func cStep(s cState, o cOp, r cRes) (bool, cState) {
 		n := s.clone()
 		n.Names[o.Dir][o.Name] = r.Handle
 		n.Ids[r.Handle] = r.Fileid
+		if o.Kind == "create" {
+			if n.HFiles == nil {
+				n.HFiles = map[string]cFile{}
+			}
+			n.HFiles[r.Handle] = cFile{}
+		}
 		return true, n
 	case "remove", "rmdir":
 		h, exists := s.Names[o.Dir][o.Name]
@@ -187,6 +227,7 @@ func cStep(s cState, o cOp, r cRes) (bool, cState) {
 		n := s.clone()
 		delete(n.Names[o.Dir], o.Name)
 		delete(n.Ids, h)
+		delete(n.HFiles, h)
 		return true, n
 	case "rename":
 		h, exists := s.Names[o.Dir][o.Name]
@@ -202,6 +243,7 @@ func cStep(s cState, o cOp, r cRes) (bool, cState) {
 		n := s.clone()
 		if old, replaced := n.Names[o.Dir2][o.Name2]; replaced {
 			delete(n.Ids, old)
+			delete(n.HFiles, old)
 		}
 		delete(n.Names[o.Dir], o.Name)
 		n.Names[o.Dir2][o.Name2] = h
@@ -224,11 +266,42 @@ func cStep(s cState, o cOp, r cRes) (bool, cState) {
 		return r.OK && r.Size == s.Size[o.File], s
 	case "sweep":
 		return r.OK, s
+	case "read", "write", "setattr":
+		ok, nsize, ndata, changed := dataStep(s.Size[o.File], s.Data[o.File], o, r)
+		if !ok || !changed {
+			return ok, s
+		}
+		n := s.clone()
+		n.Size[o.File], n.Data[o.File] = nsize, ndata
+		return true, n
+	case "readh", "writeh", "setattrh", "getattrh":
+		f, live := s.HFiles[o.H]
+		if !live {
+			return !r.OK, s // the handle names no file any more: every use must fail
+		}
+		if o.Kind == "getattrh" {
+			return r.OK && r.Size == f.Size, s
+		}
+		k := o
+		k.Kind = strings.TrimSuffix(o.Kind, "h")
+		ok, nsize, ndata, changed := dataStep(f.Size, f.Data, k, r)
+		if !ok || !changed {
+			return ok, s
+		}
+		n := s.clone()
+		n.HFiles[o.H] = cFile{Size: nsize, Data: ndata}
+		return true, n
+	}
+	return false, s
+}
+
+// dataStep judges a READ, WRITE or SETATTR(size) of a regular file with the given size and first cPrefix bytes.
+func dataStep(size uint64, data string, o cOp, r cRes) (ok bool, nsize uint64, ndata string, changed bool) {
+	switch o.Kind {
 	case "read":
 		if !r.OK {
-			return false, s
+			return false, size, data, false
 		}
-		size := s.Size[o.File]
 		var want []byte
 		if o.Off < size {
 			end := o.Off + uint64(o.Cnt)
@@ -236,57 +309,54 @@ func cStep(s cState, o cOp, r cRes) (bool, cState) {
 				end = size
 			}
 			want = make([]byte, end-o.Off)
-			if o.Off < uint64(len(s.Data[o.File])) {
-				copy(want, s.Data[o.File][o.Off:])
+			if o.Off < uint64(len(data)) {
+				copy(want, data[o.Off:])
 			}
 		}
 		if r.Data != string(want) {
 			// on a full disk a hole cannot be filled and the read ends early
 			if !(o.MayFail && strings.HasPrefix(string(want), r.Data)) {
-				return false, s
+				return false, size, data, false
 			}
 		}
 		if o.Off >= size && !r.Eof {
-			return false, s
+			return false, size, data, false
 		}
-		return true, s
+		return true, size, data, false
 	case "write":
 		if !r.OK {
-			return o.MayFail, s
+			return o.MayFail, size, data, false
 		}
 		if int(r.Cnt) != len(o.Data) && !(o.MayFail && int(r.Cnt) < len(o.Data)) {
-			return false, s
+			return false, size, data, false
 		}
 		if r.Cnt == 0 {
-			return true, s
+			return true, size, data, false
 		}
-		n := s.clone()
 		buf := make([]byte, cPrefix)
-		copy(buf, s.Data[o.File])
+		copy(buf, data)
 		copy(buf[o.Off:], o.Data[:r.Cnt])
 		end := o.Off + uint64(r.Cnt)
-		if end > n.Size[o.File] {
-			n.Size[o.File] = end
+		nsize = size
+		if end > nsize {
+			nsize = end
 		}
-		n.Data[o.File] = trimPrefix(buf, n.Size[o.File])
-		return r.Size == n.Size[o.File], n // the post-operation attributes show the size after this write
+		// the post-operation attributes show the size after this write
+		return r.Size == nsize, nsize, trimPrefix(buf, nsize), true
 	case "setattr":
 		if !r.OK {
-			return false, s
+			return false, size, data, false
 		}
-		n := s.clone()
 		buf := make([]byte, cPrefix)
-		copy(buf, s.Data[o.File])
+		copy(buf, data)
 		if o.Size < cPrefix {
 			for i := o.Size; i < cPrefix; i++ {
 				buf[i] = 0
 			}
 		}
-		n.Size[o.File] = o.Size
-		n.Data[o.File] = trimPrefix(buf, o.Size)
-		return r.Size == o.Size, n
+		return r.Size == o.Size, o.Size, trimPrefix(buf, o.Size), true
 	}
-	return false, s
+	return false, size, data, false
 }
 
 func trimPrefix(buf []byte, size uint64) string {
@@ -470,6 +540,18 @@ func (w *cWorld) exec(api API, o cOp) cRes {
 	case "setattr":
 		r := api.NFSPROC3_SETATTR(nt.SETATTR3args{Object: w.Files[o.File], New_attributes: nt.Sattr3{Size: nt.Set_size3{Set_it: true, Size: nt.Size3(o.Size)}}})
 		return cRes{OK: r.Status == nt.NFS3_OK, Size: uint64(r.Resok.Obj_wcc.After.Attributes.Size)}
+	case "getattrh":
+		r := api.NFSPROC3_GETATTR(nt.GETATTR3args{Object: nt.Nfs_fh3{Data: []byte(o.H)}})
+		return cRes{OK: r.Status == nt.NFS3_OK, Size: uint64(r.Resok.Obj_attributes.Size)}
+	case "readh":
+		r := api.NFSPROC3_READ(nt.READ3args{File: nt.Nfs_fh3{Data: []byte(o.H)}, Offset: nt.Offset3(o.Off), Count: nt.Count3(o.Cnt)})
+		return cRes{OK: r.Status == nt.NFS3_OK, Data: string(r.Resok.Data), Eof: r.Resok.Eof}
+	case "writeh":
+		r := api.NFSPROC3_WRITE(nt.WRITE3args{File: nt.Nfs_fh3{Data: []byte(o.H)}, Offset: nt.Offset3(o.Off), Count: nt.Count3(len(o.Data)), Stable: o.Stable, Data: []byte(o.Data)})
+		return cRes{OK: r.Status == nt.NFS3_OK, Cnt: uint32(r.Resok.Count), Size: uint64(r.Resok.File_wcc.After.Attributes.Size)}
+	case "setattrh":
+		r := api.NFSPROC3_SETATTR(nt.SETATTR3args{Object: nt.Nfs_fh3{Data: []byte(o.H)}, New_attributes: nt.Sattr3{Size: nt.Set_size3{Set_it: true, Size: nt.Size3(o.Size)}}})
+		return cRes{OK: r.Status == nt.NFS3_OK, Size: uint64(r.Resok.Obj_wcc.After.Attributes.Size)}
 	}
 	panic("unknown op " + o.Kind)
 }
@@ -486,6 +568,9 @@ type cGenCfg struct {
 	RootPlus bool
 	// Sweep: operations that look at every extra file (the world must have been given some with addExtras)
 	Sweep bool
+	// HandleOps: WRITE/READ/SETATTR/GETATTR through the handle the client last got from CREATE or LOOKUP of a
+	// file name - a file that other clients may remove, replace by a RENAME or move meanwhile
+	HandleOps bool
 }
 
 func genCOp(t *rapid.T, cfg cGenCfg, tag *uint32) cOp {
@@ -501,6 +586,9 @@ func genCOp(t *rapid.T, cfg cGenCfg, tag *uint32) cOp {
 	}
 	if cfg.DataOps {
 		kinds = append(kinds, "write", "write", "read", "read", "setattr", "getattr")
+	}
+	if cfg.HandleOps {
+		kinds = append(kinds, "writeh", "writeh", "writeh", "readh", "readh", "setattrh", "getattrh", "lookup", "create")
 	}
 	o := cOp{Kind: pick(t, kinds, "kind"), Dir: rapid.IntRange(0, 2).Draw(t, "dir"), File: rapid.IntRange(0, 1).Draw(t, "file")}
 	if cfg.Focus {
@@ -536,7 +624,7 @@ func genCOp(t *rapid.T, cfg cGenCfg, tag *uint32) cOp {
 		} else {
 			o.Name, o.Name2, o.Dir2 = pick(t, cFileNames, "from"), pick(t, cFileNames, "to"), rapid.IntRange(0, 2).Draw(t, "dir2")
 		}
-	case "write":
+	case "write", "writeh":
 		*tag++
 		n := pick(t, []int{1, 10, 100, 4096, 5000}, "len")
 		o.Off = uint64(pick(t, []int{0, 0, 1, 100, 4000, 4096}, "off"))
@@ -545,10 +633,10 @@ func genCOp(t *rapid.T, cfg cGenCfg, tag *uint32) cOp {
 		}
 		o.Data = string(patternData(*tag, uint64(n)))
 		o.Stable = nt.Stable_how(rapid.IntRange(0, 2).Draw(t, "stable"))
-	case "read":
+	case "read", "readh":
 		o.Off = uint64(pick(t, []int{0, 0, 1, 100, 4096, 5000, 9000}, "off"))
 		o.Cnt = uint32(pick(t, []int{1, 100, 4096, 8192, 16384}, "cnt"))
-	case "setattr":
+	case "setattr", "setattrh":
 		sizes := []uint64{0, 1, 100, 4096, 5000, 8192}
 		if cfg.BigTrunc {
 			sizes = append(sizes, 600*BlockSize, 1200*BlockSize)
@@ -676,10 +764,20 @@ func (w *cWorld) runConcurrentFrom(progs [][]cOp, yieldSeed uint64, viaRPC bool,
 						mu.Unlock()
 					}
 				}()
+				cur := "" // the handle this client last got from CREATE or LOOKUP of a file name
 				for _, op := range progs[c] {
+					if strings.HasSuffix(op.Kind, "h") && op.H == "" {
+						if cur == "" {
+							continue
+						}
+						op.H = cur
+					}
 					call := atomic.AddInt64(&clock, 1)
 					res := w.exec(api, op)
 					ret := atomic.AddInt64(&clock, 1)
+					if res.OK && (op.Kind == "create" || (op.Kind == "lookup" && !isDirName(op.Name))) {
+						cur = res.Handle
+					}
 					mu.Lock()
 					ops = append(ops, porcupine.Operation{ClientId: c, Input: op, Call: call, Output: res, Return: ret})
 					mu.Unlock()
@@ -707,18 +805,23 @@ func (w *cWorld) runConcurrentFrom(progs [][]cOp, yieldSeed uint64, viaRPC bool,
 	// final observation, after all clients have returned
 	api := w.S.API()
 	obs := len(progs)
-	final := func(op cOp) {
+	final := func(op cOp) cRes {
 		op.MayFail = w.FullDisk
 		call := atomic.AddInt64(&clock, 1)
 		res := w.exec(api, op)
 		ops = append(ops, porcupine.Operation{ClientId: obs, Input: op, Call: call, Output: res, Return: atomic.AddInt64(&clock, 1)})
+		return res
 	}
 	fo := GuardTxn(watchdog, func() {
 		final(cOp{Kind: "readdirplus", Dir: 0})
 		for d := 0; d < 3; d++ {
 			final(cOp{Kind: "readdir", Dir: d})
 			for _, n := range append(append([]string{}, cFileNames...), cDirNames...) {
-				final(cOp{Kind: "lookup", Dir: d, Name: n})
+				if r := final(cOp{Kind: "lookup", Dir: d, Name: n}); r.OK && !isDirName(n) {
+					// the files the programs created: size and bytes as the last writer left them
+					final(cOp{Kind: "getattrh", H: r.Handle})
+					final(cOp{Kind: "readh", H: r.Handle, Off: 0, Cnt: 16384})
+				}
 			}
 		}
 		for f := 0; f < 2; f++ {
@@ -743,6 +846,8 @@ func conflicting(ops []porcupine.Operation) int {
 		switch o.Kind {
 		case "write", "read", "setattr", "getattr":
 			return []string{fmt.Sprintf("f%d", o.File)}
+		case "writeh", "readh", "setattrh", "getattrh":
+			return []string{"h:" + o.H}
 		case "rename":
 			return []string{fmt.Sprintf("%d/%s", o.Dir, o.Name), fmt.Sprintf("%d/%s", o.Dir2, o.Name2)}
 		case "readdir":
